@@ -178,3 +178,113 @@ assumptions = (
 )
 not_covered = ("ReadWriteLogRecord", "api logs::Logger::EmitLogRecord(args...) and logger_type_traits.h", "MultiLogRecordProcessor / MultiRecordable", "processors and exporters")
 refuters = {}
+
+
+# ---------------------------------------------------------------------------------------------
+# ReadWriteLogRecord (sdk/src/logs/read_write_log_record.cc), the recordable the SDK's exporters receive: every setter stores exactly its
+# argument and touches nothing else; the trace identity lives in a lazily created TraceState whose other members a setter leaves alone
+# (a fresh one is all-zero); SetAttribute leaves the value under the key (last write wins); the event name is an owned copy.
+from . import c04 as _c04
+TU_RW = ("tu_rw_log_record", '#include "%s/sdk/src/logs/read_write_log_record.cc"\n' % R.core.REPO)
+RW_PRE = r"""
+size_t g_k; long g_now;
+const char *g_key_data; unsigned long g_key_len; unsigned long g_keys_made;
+static void xc_havoc_ghosts(void);
+#define XC_MAXS 4096UL
+#define SV_OK(sv) ((sv).length_ <= XC_MAXS && __CPROVER_is_fresh((sv).data_, (sv).length_))
+#define OWNED_COPY(s, sv) ((s).len == (sv).length_ && __CPROVER_is_fresh((s).data, (s).len) && (g_k < (s).len ==> (s).data[g_k] == (sv).data_[g_k]))
+#define RW_OK(r) ((r)->trace_state_ == NULL || __CPROVER_is_fresh((r)->trace_state_, sizeof(TraceState)))
+"""
+RW_POST = r"""
+static void xc_havoc_ghosts(void) { size_t a; int p; xc_attrval v; unsigned long b, c; g_k = a; g_slot_present = p; g_slot_val = v; g_slot_key = b; g_umap_ops = c; g_key_data = 0; g_key_len = 0; g_keys_made = 0; }
+static xc_key xc_mkkey_sv(string_view sv) { xc_key k; g_keys_made++; k.id = g_keys_made; g_key_data = sv.data_; g_key_len = sv.length_; return k; }
+xc_str xc_string_copy(const char *data, size_t len)
+__CPROVER_requires(len <= XC_MAXS && __CPROVER_r_ok(data, len))
+__CPROVER_assigns()
+__CPROVER_ensures(__CPROVER_return_value.len == len && __CPROVER_is_fresh(__CPROVER_return_value.data, len))
+__CPROVER_ensures(g_k < len ==> __CPROVER_return_value.data[g_k] == data[g_k]);
+static long xc_now(void) { return g_now; }
+"""
+
+
+def _configure_rw(cfg):
+    common.sdk_trace_boundary(cfg)
+    common.chrono_boundary(cfg)
+    cfg.value_classes |= {"string_view", "TraceId", "SpanId", "TraceFlags", "SystemTimestamp"}
+    cfg.type_handlers.insert(0, _c04._am_attr_type)
+    common.umap_boundary(cfg, _c04._am_key)
+    for n in ("std::basic_string", "std::__cxx11::basic_string"):
+        cfg.ctor_ext[n] = _c04._sd_str_ctor
+        cfg.ext_methods[n + "::operator="] = lambda em, recv, args, n: "%s = %s" % (recv, _c04._sd_str_ctor(em, n, args))
+    for k in ("absl::otel_v1::variant", "nostd::variant", "variant"):
+        cfg.ext_methods[k + "::operator="] = lambda em, recv, args, n: "%s = %s" % (recv, em.expr(args[0]))
+    for r in ("sdk::resource::Resource", "sdk::instrumentationscope::InstrumentationScope"):
+        cfg.opaque_records[r] = "xc_opaque"
+
+    def _up(em, base, targs, name):
+        if base == "std::unique_ptr" and targs and targs[0].strip().endswith("TraceState"):
+            inner = em._ctype(targs[0])
+            return CT(inner.base, inner.ptr + 1)
+        return None
+    cfg.type_handlers.insert(0, _up)
+    cfg.ctor_ext["std::unique_ptr"] = lambda em, node, args: (em.expr(args[0]) if args else "NULL")
+    U = "std::unique_ptr::"
+    cfg.ext_methods[U + "operator bool"] = lambda em, recv, args, n: "(%s != NULL)" % recv
+    cfg.ext_methods[U + "operator->"] = lambda em, recv, args, n: recv
+    cfg.ext_methods[U + "operator="] = lambda em, recv, args, n: "%s = %s" % (recv, em.expr(args[0]))
+    cfg.ext["new"] = common._kv_new
+    cfg.ext["now"] = lambda em, node, recv, args: "xc_now()"
+
+
+def _ts_contract(field, arg, n):
+    others = [f for f in ("trace_id", "span_id", "trace_flags") if f != field]
+    zero = lambda f: ("self->trace_state_->trace_flags.rep_ == 0" if f == "trace_flags" else "(g_k < %d ==> self->trace_state_->%s.rep_[g_k] == 0)" % (16 if f == "trace_id" else 8, f))
+    keep = lambda f: ("self->trace_state_->trace_flags.rep_ == __CPROVER_old(self->trace_state_->trace_flags.rep_)" if f == "trace_flags" else
+                      "(g_k < %d ==> self->trace_state_->%s.rep_[g_k] == __CPROVER_old(self->trace_state_->%s.rep_[g_k * (g_k < %d)]))" % (16 if f == "trace_id" else 8, f, f, 16 if f == "trace_id" else 8))
+    stored = ("self->trace_state_->trace_flags.rep_ == %s.rep_" % arg) if field == "trace_flags" else "(g_k < %d ==> self->trace_state_->%s.rep_[g_k] == %s.rep_[g_k])" % (n, field, arg)
+    return {"pre":
+        "__CPROVER_requires(__CPROVER_is_fresh(self, sizeof(*self)) && RW_OK(self))\n"
+        "__CPROVER_assigns(self->trace_state_; self->trace_state_ != NULL: __CPROVER_object_whole(self->trace_state_))\n"
+        "__CPROVER_ensures(self->trace_state_ != NULL && " + stored + ")\n"
+        # an identity that existed keeps its other members; one created now is all-zero apart from the member just set
+        "__CPROVER_ensures(__CPROVER_old(self->trace_state_) != NULL ==> (self->trace_state_ == __CPROVER_old(self->trace_state_) && " + " && ".join(keep(f) for f in others) + "))\n"
+        "__CPROVER_ensures(__CPROVER_old(self->trace_state_) == NULL ==> (__CPROVER_is_fresh(self->trace_state_, sizeof(TraceState)) && " + " && ".join(zero(f) for f in others) + "))\n"}
+
+
+RW = "ReadWriteLogRecord"
+_fresh = "__CPROVER_requires(__CPROVER_is_fresh(self, sizeof(*self)))\n"
+contracts_rw = {
+    RW + "_SetTimestamp": {"pre": _fresh + "__CPROVER_assigns(self->timestamp_)\n__CPROVER_ensures(self->timestamp_.nanos_since_epoch_ == timestamp.nanos_since_epoch_)\n"},
+    RW + "_SetObservedTimestamp": {"pre": _fresh + "__CPROVER_assigns(self->observed_timestamp_)\n__CPROVER_ensures(self->observed_timestamp_.nanos_since_epoch_ == timestamp.nanos_since_epoch_)\n"},
+    RW + "_SetSeverity": {"pre": _fresh + "__CPROVER_assigns(self->severity_)\n__CPROVER_ensures(self->severity_ == severity)\n"},
+    RW + "_SetBody": {"pre": _fresh + "__CPROVER_requires(__CPROVER_is_fresh(message, sizeof(*message)))\n__CPROVER_assigns(self->body_)\n__CPROVER_ensures(self->body_.id == message->id)\n"},
+    RW + "_SetEventId": {"pre": _fresh + "__CPROVER_requires(SV_OK(name))\n__CPROVER_assigns(self->event_id_, self->event_name_)\n"
+                         "__CPROVER_ensures(self->event_id_ == id && OWNED_COPY(self->event_name_, name))\n"},
+    RW + "_SetResource": {"pre": _fresh + "__CPROVER_assigns(self->resource_)\n__CPROVER_ensures(self->resource_ == resource)\n"},
+    RW + "_SetInstrumentationScope": {"pre": _fresh + "__CPROVER_assigns(self->instrumentation_scope_)\n__CPROVER_ensures(self->instrumentation_scope_ == instrumentation_scope)\n"},
+    RW + "_SetTraceId": _ts_contract("trace_id", "trace_id", 16),
+    RW + "_SetSpanId": _ts_contract("span_id", "span_id", 8),
+    RW + "_SetTraceFlags": _ts_contract("trace_flags", "trace_flags", 1),
+    RW + "_SetAttribute": {"pre": _fresh + "__CPROVER_requires(__CPROVER_is_fresh(value, sizeof(*value)))\n"
+        "__CPROVER_assigns(g_slot_present, g_slot_val, g_slot_key, g_umap_ops, g_key_data, g_key_len, g_keys_made)\n"
+        "__CPROVER_ensures(g_slot_present && g_slot_val.id == value->id && g_umap_ops == __CPROVER_old(g_umap_ops) + 1)\n"
+        "__CPROVER_ensures(g_keys_made == 1 && g_key_data == key.data_ && g_key_len == key.length_)\n"},
+}
+proofs_rw = []
+for _m, _np in (("SetTimestamp", 1), ("SetObservedTimestamp", 1), ("SetSeverity", 1), ("SetBody", 1), ("SetEventId", 2), ("SetResource", 1), ("SetInstrumentationScope", 1),
+                ("SetTraceId", 1), ("SetSpanId", 1), ("SetTraceFlags", 1), ("SetAttribute", 2)):
+    _p = Proof("LogRecord_" + _m, [(RW + "::" + _m, _np)], enforce=RW + "_" + _m, replace=(["xc_string_copy"] if _m == "SetEventId" else []), timeout=300,
+               desc="ReadWriteLogRecord::%s stores exactly its argument and nothing else changes" % _m)
+    _p.tu = TU_RW
+    _p.pre_c = RW_PRE
+    _p.post_struct_c = RW_POST
+    _p.spec_headers = ("xc_trace_boundary.h",)
+    _p.force_records = ("nostd::string_view",)
+    _p.configure = _configure_rw
+    _p.own_config = True
+    _p.contracts = contracts_rw
+    _p.umap = True
+    _p.defines_c = "typedef struct xc_attrval { unsigned long id; } xc_attrval;\n#define XC_UMAP_VAL xc_attrval\n#define XC_UMAP_ZERO {0}\n"
+    proofs_rw.append(_p)
+proofs += proofs_rw
+assumed_contracts = {"xc_string_copy": "std::string{string_view}: a copy of the bytes in storage of its own (C++ standard)"}
